@@ -316,11 +316,20 @@ def _walk_successors(ctx, p, b, fn, parent_fields):
             ix = next(iter(n[1]))
             if ix[0] != 'index' or not (ix[2] and all(a[0] == 'param' and a[1] == 2 for a in ix[2])):
                 return False
+            def is_env(e):
+                return e[0] == 'field' and e[2].isdigit() and int(e[2]) < len(caps) and all(z[0] == 'param' and z[1] == 1 for z in e[1])
+
+            def is_cont_terms(ts):
+                # self.<container> of the extractor, or (in a helper working on a node slice) a parameter of node-vector type
+                return bool(ts) and all((w[0] == 'field' and w[2] in p['containers'] and all(z[0] == 'param' and z[1] == 1 for z in w[1])) or
+                                        (w[0] == 'param' and P.node_vec_ty(p, b.local_ty(w[1]))) for w in ts)
             for c in ix[1]:
-                if not (c[0] == 'field' and c[2] in p['containers'] and all(
-                        e[0] == 'field' and e[2].isdigit() and all(z[0] == 'param' and z[1] == 1 for z in e[1]) and
-                        int(e[2]) < len(caps) and all(w[0] == 'param' and w[1] == 1 for w in caps[int(e[2])]) for e in c[1])):
-                    return False
+                if is_env(c) and is_cont_terms(caps[int(c[2])]):
+                    continue                    # the closure captured the container (a slice of nodes) itself
+                if c[0] == 'field' and c[2] in p['containers'] and c[1] and all(
+                        is_env(e) and all(w[0] == 'param' and w[1] == 1 for w in caps[int(e[2])]) for e in c[1]):
+                    continue                    # the closure captured self
+                return False
             return True
         r1, caps1 = closure_ret(step)
         if r1 is None or not r1 or not all(node_read(n, parent_fields, caps1) for n in r1):
